@@ -548,6 +548,7 @@ class StartComponentPublic(FnSpec):
     cancelled after a successful start; returns the root component.  The caller's config is never written."""
     qual = START
     frame_rule = True
+    uses_invariants = ("I-stk:exit-stack-as-pushed-by-aenter",)
     properties = ("C05", "C07", "C14")
     param_types = {"component_class": ANY, "config": ANY, "timeout": ANY}
     modifies = "rely"
